@@ -733,6 +733,18 @@ def builtin (fn : String) (args : List Val) : Option (M Val) :=
       -- `len(set(xs))` (the translator's name for it): the number of distinct items
       let ks ← dedupKeys [] l
       M.pure (.int (.lit ks.length)))
+  | "__dict_merge", [.list pairs, .dict ks2 vs2] => some (do
+      -- `dict(pairs, **d)` (the translator's name for it): insert the pairs in order, then the items of `d`
+      -- (a key already present keeps its position and takes the new value)
+      let rec ins : List Val → List Val → List Val → M (List Val × List Val)
+        | [], ks, vs => M.pure (ks, vs)
+        | (.list [k, v]) :: rest, ks, vs => do
+          let (ks', vs') ← dictSet k v ks vs
+          ins rest ks' vs'
+        | _ :: _, _, _ => M.fail (.raise "TypeError")
+      let (ks, vs) ← ins pairs [] []
+      let (ks, vs) ← ins (zipPairs ks2 vs2) ks vs
+      M.pure (.dict ks vs))
   | "dict.fromkeys", [.list l] => some (do
       let ks ← dedupKeys [] l
       M.pure (.dict ks (ks.map (fun _ => Val.none))))
@@ -767,6 +779,8 @@ def containerMethod (recv : Val) (m : String) (args : List Val) : Option (M Val)
   | .dict _ vs, "values", [] => some (M.pure (.list vs))
   | .dict ks _, "keys", [] => some (M.pure (.list ks))
   | .dict ks vs, "items", [] => some (M.pure (.list (zipPairs ks vs)))
+  | .dict ks vs, "copy", [] => some (M.pure (.dict ks vs))       -- containers are values: a copy is the value
+  | .list l, "copy", [] => some (M.pure (.list l))
   | .dict ks vs, "get", [k] => some (do
       match (← dictGet k ks vs) with | some v => M.pure v | Option.none => M.pure .none)
   | .dict ks vs, "get", [k, d] => some (do
